@@ -25,6 +25,15 @@ verification after EVERY step (or only at the end: cold caches): every pool memb
 (so collections derived earlier keep their earlier value) and every retained source is bit-identical
 to its initial copy.  Keys NumPy accepts but dask refuses must raise and leave everything unchanged.
 Failing histories are shrunk by dropping steps.
+In-place ufuncs in histories: binary and unary, with `where=` (NumPy mask, dask mask with its own chunks, a mask computed
+from a pool member) and without; `x.persist()` as a derivation (in-place operations on persisted collections); the
+verification order after a step varies per history (pool order, reversed, the updated target first, all members in one
+`dask.compute`), under the synchronous or the threaded scheduler; besides the user's buffers, the private array every
+`from_array` node keeps (its multi-chunk blocks are views of it) and the blocks held by persisted collections are
+fingerprinted.
+Extension stream (harness/props_ext/c11_ufunc.py): a GRID of in-place ufunc / reduction scenarios walked completely in
+every run: how x was built (8 ways) x kind of `where=` (8, incl. none) x order of the computes after the call / scheduler
+(6); see that module.
 """
 from __future__ import annotations
 
@@ -396,7 +405,19 @@ class Sim:
                 m[key] = val
         elif op == "out":
             f = getattr(np, st["ufunc"])
-            f(self.np[st["a"]], self.np[st["b"]], out=self.np[st["x"]])
+            args = [self.np[st["a"]]] + ([self.np[st["b"]]] if st.get("b") is not None else [])
+            kw = {}
+            if st.get("where") is not None:
+                kw["where"] = self.where(st["where"])
+            f(*args, out=self.np[st["x"]], **kw)
+        elif op == "persist":
+            m = self.np[st["x"]]
+            self.np[st["out"]] = m.copy()
+            self.order.append(st["out"])
+            if st["x"] in self.masked:
+                self.masked.add(st["out"])
+            if st["x"] in self.unknown:
+                self.unknown.add(st["out"])
         elif op == "ccs":
             self.unknown.discard(st["x"])
         elif op in ("compute", "optimize", "keys"):
@@ -418,6 +439,12 @@ class Sim:
     def mask(self, mk):
         ref = self.np[mk["ref"]]
         return ref > mk["c"] if mk["cmp"] == ">" else ref % mk["c"] == 0
+
+    def where(self, w):
+        """The NumPy value of a `where=` description (a fresh array: never aliases a mirror)."""
+        if "ref" in w:
+            return np.array(self.mask(w), dtype=bool)
+        return np.array(w["mask"], dtype=bool)
 
 
 def gen_history(rng, length):
@@ -612,9 +639,32 @@ def gen_history(rng, length):
             a, b = rng.choice(pairs)
             if any(n in sim.masked for n in (x, a, b)):
                 continue
-            if in_place({"op": "out", "x": x, "a": a, "b": b, "ufunc": rng.choice(["add", "subtract", "multiply", "maximum"]),
-                         "style": rng.choice(["np", "da"])}, x):
+            st = {"op": "out", "x": x, "a": a, "b": b, "ufunc": rng.choice(["add", "subtract", "multiply", "maximum"]),
+                  "style": rng.choice(["np", "da"])}
+            if rng.random() < 0.25:
+                # a unary ufunc (often x itself is the input)
+                same = [n for n in names if sim.np[n].shape == shp and n not in sim.unknown and n not in sim.masked]
+                st.update(a=x if rng.random() < 0.5 else rng.choice(same), b=None, ufunc=rng.choice(["negative", "absolute", "square"]))
+            if rng.random() < 0.5 and shp:
+                # where=: the chunk function receives the block of x as its `out` and must not write into it
+                # (0-d x whose block is a NumPy scalar: known class, c11_ufunc.probes (d))
+                wq = rng.random()
+                if wq < 0.4:
+                    st["where"] = {"kind": "np", "mask": np.array([rng.random() < 0.5 for _ in range(int(np.prod(shp)))]).reshape(shp).tolist()}
+                elif wq < 0.7:
+                    st["where"] = {"kind": "dask", "mask": np.array([rng.random() < 0.5 for _ in range(int(np.prod(shp)))]).reshape(shp).tolist(),
+                                   "chunks": [list(c) for c in P.rand_chunks_nd(rng, shp)]}
+                else:
+                    same = [n for n in names if sim.np[n].shape == shp and n not in sim.unknown and n not in sim.masked]
+                    st["where"] = {"kind": "of", "ref": rng.choice(same), "cmp": rng.choice([">", "%"]), "c": rng.randint(1, 6)}
+            if in_place(st, x):
                 taint(x)
+        elif q < 0.905:
+            # a persisted collection: its blocks are held by the graph (in-place operations must not write into them)
+            cands = [n for n in names if n not in sim.unknown]
+            if cands:
+                a = rng.choice(cands)
+                add({"op": "persist", "x": a, "out": fresh()})  # (a persisted collection is materialised: slicing it is fine)
         elif q < 0.93:
             unk = [n for n in names if n in sim.unknown]
             if unk:
@@ -661,13 +711,37 @@ def fingerprint(a):
     return hashlib.sha1(np.ascontiguousarray(a).tobytes() + str(a.shape).encode() + str(a.dtype).encode()).hexdigest()
 
 
-def run_history(steps, optimize, eager, stop_at=None):
+def held_arrays(coll):
+    """What a collection keeps alive and hands to chunk functions: the private array of every `from_array` node (from_array
+    copies the user's buffer; multi-chunk blocks are VIEWS of that copy) and the blocks of persisted graphs."""
+    out = []
+    try:
+        for node in coll.expr.walk():
+            kind = type(node).__name__
+            if kind == "FromArray" and isinstance(getattr(node, "array", None), np.ndarray):
+                out.append(("from_array-internal", node.array))
+            elif kind == "FromGraph":
+                for k, v in dict(node._layer()).items():
+                    v = getattr(v, "value", v)
+                    if isinstance(v, np.ndarray):
+                        out.append((f"persisted-block{list(k[1:])}", v))
+    except Exception:
+        pass
+    return out
+
+
+def run_history(steps, optimize, eager, stop_at=None, mode=None):
     """Run a history on the real code and on NumPy mirrors. Returns None or a failure dict
-    {"step": i, "what": ..., "name": ..., ...}; `refusals` are collected in the returned tuple."""
+    {"step": i, "what": ..., "name": ..., ...}; `refusals` are collected in the returned tuple.
+    mode = {"order": "pool" | "reversed" | "target-first" | "together", "scheduler": "sync" | "threads"}: how the pool is
+    computed when it is verified."""
     import dask
     import dask_array as da
     from dask.core import flatten
 
+    mode = mode or {}
+    vorder = mode.get("order", "pool")
+    VKW = {"scheduler": "threads"} if mode.get("scheduler") == "threads" else SYNC
     sim = Sim()
     env = {}
     sources = {}
@@ -677,10 +751,30 @@ def run_history(steps, optimize, eager, stop_at=None):
     stash = []    # (name, delayed blocks, block slices, mirror copy) taken by a `keys` step: old graphs keep their old values
     touched = set()  # names whose keys were materialised before later updates
 
-    def verify(i, names=None):
-        for n in (names or sim.order):
+    def hold(n):
+        for label, v in held_arrays(env[n]):
+            if not any(v is w for w in sources.values()):
+                key = f"{n}:{label}"
+                sources[key] = v
+                prints[key] = fingerprint(v)
+
+    def verify(i, names=None, target=None):
+        order = list(names or sim.order)
+        if names is None:
+            if vorder == "reversed":
+                order.reverse()
+            elif vorder == "target-first" and target in order:
+                order.remove(target)
+                order.insert(0, target)
+        results = {}
+        if names is None and vorder == "together" and len(order) > 1:
             try:
-                got = np.asanyarray(env[n].compute(**SYNC))
+                results = dict(zip(order, dask.compute(*[env[n] for n in order], **VKW)))
+            except Exception:
+                results = {}  # locate the member that raises one by one
+        for n in order:
+            try:
+                got = np.asanyarray(results[n] if n in results else env[n].compute(**VKW))
             except Exception as e:
                 return {"step": i, "what": "compute-raises", "name": n, "error": repr(e)[:300]}
             want = sim.np[n]
@@ -732,6 +826,7 @@ def run_history(steps, optimize, eager, stop_at=None):
                 sources[st["out"]] = data
                 prints[st["out"]] = fingerprint(data)
                 env[st["out"]] = da.from_array(data, chunks=tuple(tuple(c) for c in st["chunks"]))
+                hold(st["out"])
                 sim.apply(st)
             elif op == "derive":
                 if not numpy_accepts(sim, st):
@@ -782,13 +877,31 @@ def run_history(steps, optimize, eager, stop_at=None):
                         bad["what"] = "refused-but-" + bad["what"]
                         return bad, refusals
                     continue
+            elif op == "persist":
+                try:
+                    env[st["out"]] = env[st["x"]].persist(**SYNC)
+                except Exception as e:
+                    return {"step": i, "what": "persist-raises", "name": st["out"], "error": repr(e)[:300]}, refusals
+                sim.apply(st)
+                hold(st["out"])
             elif op == "out":
                 f = getattr(np if st["style"] == "np" else da, st["ufunc"])
                 if not numpy_accepts(sim, st):
                     return None, refusals
-                pre = {n: type(env[n])(env[n].expr) for n in (st["a"], st["b"])}  # the operands as they are before the update
+                opnames = [st["a"]] + ([st["b"]] if st.get("b") is not None else [])
+                pre = {n: type(env[n])(env[n].expr) for n in opnames}  # the operands as they are before the update
                 try:
-                    f(env[st["a"]], env[st["b"]], out=env[st["x"]])
+                    kw = {}
+                    w = st.get("where")
+                    if w is not None:
+                        if "ref" in w:
+                            ref = env[w["ref"]]
+                            kw["where"] = (ref > w["c"]) if w["cmp"] == ">" else (ref % w["c"] == 0)
+                        elif w["kind"] == "dask":
+                            kw["where"] = da.from_array(np.array(w["mask"], dtype=bool), chunks=tuple(tuple(c) for c in w["chunks"]))
+                        else:
+                            kw["where"] = np.array(w["mask"], dtype=bool)
+                    f(*[env[n] for n in opnames], out=env[st["x"]], **kw)
                     sim.apply(st)
                 except REFUSALS as e:
                     refusals.append((type(e).__name__, str(e)[:80], ["out=" + st["style"]]))
@@ -825,7 +938,7 @@ def run_history(steps, optimize, eager, stop_at=None):
                     stash.append((st["x"], delayed, slices, sim.np[st["x"]].copy()))
                     stash[:] = stash[-3:]
             if eager or i == len(steps) - 1 or (stop_at is not None and i == stop_at):
-                bad = verify(i)
+                bad = verify(i, target=st.get("x") if op in ("setitem", "out", "ccs") else None)
                 if bad:
                     if op == "derive" and bad.get("name") == st["out"]:
                         bad["generic"] = derive_fails_on_fresh_arrays(st, env, sim)
@@ -859,8 +972,11 @@ def ufunc_fails_out_of_place(st, pre, sim):
     expression itself (broadcasting / chunk unification / optimisation), not of the in-place update."""
     import dask_array as da
 
+    if st.get("where") is not None:
+        return False  # with where= the result depends on the old x: there is no out-of-place twin to compare with
     try:
-        got = np.asarray(getattr(da, st["ufunc"])(pre[st["a"]], pre[st["b"]]).compute(**SYNC))
+        args = [pre[st["a"]]] + ([pre[st["b"]]] if st.get("b") is not None else [])
+        got = np.asarray(getattr(da, st["ufunc"])(*args).compute(**SYNC))
         want = sim.np[st["x"]]
         return not (got.shape == want.shape and np.array_equal(got, want))
     except Exception:
@@ -872,18 +988,20 @@ def classify(steps, bad):
     op = st["op"]
     if op == "derive":
         op = "derive:" + st["step"]["op"]
-    target = st.get("x", st.get("out"))
+    target = st.get("out") if op == "persist" else st.get("x", st.get("out"))
+    if op == "out" and st.get("where") is not None:
+        op = "out+where"
     who = "target" if bad.get("name") == target else "other"
     if bad["what"] == "source-mutated":
         who = "source"
     return f"history:{op}:{bad['what']}:{who}"
 
 
-def shrink_history(steps, optimize, eager, sig):
+def shrink_history(steps, optimize, eager, sig, mode=None):
     """Greedy: drop steps (from the end first) while the same class of failure remains."""
     def fails(ss):
         try:
-            bad, _ = run_history(ss, optimize, eager)
+            bad, _ = run_history(ss, optimize, eager, mode=mode)
         except Exception:
             return False
         return bad is not None and classify(ss, bad) == sig
@@ -901,7 +1019,11 @@ def shrink_history(steps, optimize, eager, sig):
                 unk = sim.unknown
                 if op == "derive" and st["step"]["op"] not in UNARY_OPS and any(a in unk for a in st["step"].get("args", [])):
                     return False
-                if op == "out" and any(st[k] in unk for k in ("x", "a", "b")):
+                if op == "out" and any(st.get(k) in unk for k in ("x", "a", "b")):
+                    return False
+                if op == "out" and st.get("where") is not None and st["where"].get("ref") in unk:
+                    return False
+                if op == "persist" and st["x"] in unk:
                     return False
                 if op == "setitem":
                     v = st["value"]
@@ -918,7 +1040,7 @@ def shrink_history(steps, optimize, eager, sig):
 
     cur = list(steps)
     # cut after the failing step
-    bad, _ = run_history(cur, optimize, eager)
+    bad, _ = run_history(cur, optimize, eager, mode=mode)
     if bad is not None:
         cur = cur[: bad["step"] + 1]
     changed = True
@@ -934,11 +1056,12 @@ def shrink_history(steps, optimize, eager, sig):
     return cur
 
 
-def check_history(ctx, steps, optimize, eager, shrink=True):
+def check_history(ctx, steps, optimize, eager, shrink=True, mode=None):
+    mode = dict(mode or {})
     try:
-        bad, refusals = with_timeout(60, lambda: run_history(steps, optimize, eager))
+        bad, refusals = with_timeout(60, lambda: run_history(steps, optimize, eager, mode=mode))
     except Hang:
-        ctx.fail("history:hang", {"history": steps, "optimize": optimize, "eager": eager}, "the history does not finish within 60 s")
+        ctx.fail("history:hang", {"history": steps, "optimize": optimize, "eager": eager, "mode": mode}, "the history does not finish within 60 s")
         return False
     for cls, msg, kinds in refusals:
         key = f"refusal.{cls}"
@@ -951,7 +1074,7 @@ def check_history(ctx, steps, optimize, eager, shrink=True):
     if not eager:
         # verification only at the end cannot say WHICH step broke things: locate it by verifying after every step
         try:
-            bad2, _ = with_timeout(60, lambda: run_history(steps, optimize, True))
+            bad2, _ = with_timeout(60, lambda: run_history(steps, optimize, True, mode=mode))
         except Hang:
             bad2 = None
         if bad2 is not None:
@@ -965,13 +1088,19 @@ def check_history(ctx, steps, optimize, eager, shrink=True):
     small = steps
     if shrink:
         try:
-            small = shrink_history(steps, optimize, eager, sig)
-            bad2, _ = run_history(small, optimize, eager)
+            if mode.get("scheduler") == "threads":
+                # prefer a deterministic replay: keep the threaded scheduler only if the failure needs it
+                sync_mode = dict(mode, scheduler="sync")
+                b0, _ = run_history(steps, optimize, eager, mode=sync_mode)
+                if b0 is not None and classify(steps, b0) == sig:
+                    mode = sync_mode
+            small = shrink_history(steps, optimize, eager, sig, mode=mode)
+            bad2, _ = run_history(small, optimize, eager, mode=mode)
             if bad2 is not None:
                 bad = bad2
         except Exception:
             small = steps
-    ctx.fail(sig, {"history": small, "optimize": optimize, "eager": eager, "failure": bad, "unshrunk_length": len(steps)},
+    ctx.fail(sig, {"history": small, "optimize": optimize, "eager": eager, "mode": mode, "failure": bad, "unshrunk_length": len(steps)},
              "after an in-place operation a pool member no longer computes to its NumPy mirror (or a source changed)")
     return False
 
@@ -1103,6 +1232,8 @@ def search(ctx):
         steps = gen_history(rng, rng.randint(2, L))
         optimize = rng.random() < 0.6
         eager = rng.random() < 0.7
+        mode = {"order": rng.choice(["pool", "pool", "reversed", "target-first", "target-first", "together"]),
+                "scheduler": "threads" if rng.random() < 0.2 else "sync"}
         ops = tuple(sorted({(s["op"] if s["op"] != "derive" else "d:" + s["step"]["op"]) for s in steps}))
         for s in steps:
             if s["op"] == "setitem":
@@ -1110,11 +1241,14 @@ def search(ctx):
                 v = s["value"]
                 vk = "scalar" if not isinstance(v, dict) else ("np" if "np" in v else ("masked" if "ma" in v else ("self" if v["ref"] == s["x"] else "dask")))
                 ctx.count(("setitem", kinds, vk, optimize))
+            elif s["op"] == "out":
+                w = s.get("where")
+                ctx.count(("out", "unary" if s.get("b") is None else "binary", "no-where" if w is None else w["kind"], optimize, mode["order"], mode["scheduler"]))
             else:
                 ctx.count((s["op"] if s["op"] != "derive" else "d:" + s["step"]["op"], optimize, eager))
         if i < 2:
-            ctx.sample({"history": steps, "optimize": optimize, "eager": eager})
-        check_history(ctx, steps, optimize, eager)
+            ctx.sample({"history": steps, "optimize": optimize, "eager": eager, "mode": mode})
+        check_history(ctx, steps, optimize, eager, mode=mode)
         done += 1
     ctx.notes["histories"] = done
 
@@ -1171,7 +1305,9 @@ def run(ctx, replay=None):
     ctx.rule = (
         "correspondence: exhaustive 1-d (sizes <= N, bounds in [-n-2,n+2] or None, 7 steps, all chunkings, 3 value kinds; subsampled in quick) "
         "+ seeded random n-d slice/int keys; search: seeded random histories (length <= 8 quick / 30 thorough) over pools of <= ~8 collections; "
-        "an operation instance is distinct by (op, key kinds per axis, value kind, optimised) resp. (op, optimised, eager verification)"
+        "an operation instance is distinct by (op, key kinds per axis, value kind, optimised) resp. (op, optimised, eager verification) resp. "
+        "(out=, unary/binary, where kind, optimised, verification order, scheduler); in-place ufunc scenarios: the complete grid "
+        "(how x was built) x (where kind) x (compute order, scheduler), other dimensions seeded random; distinct by (cell, call kind, out= form, optimised)"
     )
     ctx.assumptions = [
         "all data int64 (exact); integer-list keys without repeated indices (NumPy's write order for repeats is not a contract)",
@@ -1179,15 +1315,22 @@ def run(ctx, replay=None):
         "a fancy key (list / bool / dask array) is combined with slices only (NumPy moves advanced dimensions when separated by a slice)",
         "MaskedArray values: the oracle is numpy.ma's assignment (x becomes a masked array, as dask documents), not ndarray.__setitem__ (which drops the mask)",
         "list / boolean / dask-array keys are not modelled in Lean (search only); the store theorems assume materialize/eval sound (C01/C02)",
+        "in-place ufunc scenarios: x and the operands have the same dtype (int64 or float64 holding integers); other dtypes of out= are a probed class",
+        "after an in-place ufunc with where=/out= no SLICE of x is taken (probed classes); da.f(a, b, x) with a positional out is a probed class (np.f(a, b, x) is explored)",
     ]
     NEX = ctx.scale(4, 6)
     NR = ctx.scale(1200, 20000)
     if replay is not None:
         case = replay.get("case", replay)
         if "history" in case:
-            check_history(ctx, case["history"], case.get("optimize", True), case.get("eager", True), shrink=False)
+            check_history(ctx, case["history"], case.get("optimize", True), case.get("eager", True), shrink=False, mode=case.get("mode"))
+        elif case.get("ufunc_scenario"):
+            from harness.props_ext import c11_ufunc
+            c11_ufunc.check_case(ctx, {k: v for k, v in case.items() if k != "failure"}, do_shrink=False)
         else:
+            from harness.props_ext import c11_ufunc
             probe_known(ctx)
+            c11_ufunc.probes(ctx)
             ctx.correspond("parse_assignment_indices", parse_pairs(ctx, NEX, NR))
             ctx.correspond("setitem_array_expr plan", plan_pairs(ctx, min(NEX, 4), NR // 4))
             if ctx.disagreements:
@@ -1200,7 +1343,10 @@ def run(ctx, replay=None):
     ctx.extra["exhaustive_domain"] = (f"parse_assignment_indices: all 1-d slices with bounds in [-n-2,n+2]∪{{None}} × 7 steps, n ≤ {NEX}; "
                                       f"setitem plan: all chunkings of n ≤ {min(NEX, ctx.scale(4, 5))} × those slices × value kinds (0-d, length 1, full) "
                                       "(a seeded subsample of 2500 in quick)")
+    from harness.props_ext import c11_ufunc
     probe_known(ctx)
+    c11_ufunc.search(ctx)
     search(ctx)
+    c11_ufunc.probes(ctx)  # last: failures found by the searches are reported first
     if ctx.disagreements:
         targeted(ctx)
